@@ -115,7 +115,7 @@ fn rendered_check(rendered: &str, keys: &[String], has_context: bool) -> &'stati
     }
 }
 
-fn show_err(sp: Option<std::ops::Range<usize>>, dbg: &str, rendered: &str, has_raw: bool) -> String {
+pub fn show_err(sp: Option<std::ops::Range<usize>>, dbg: &str, rendered: &str, has_raw: bool) -> String {
     let keys = keys_from_debug(dbg);
     let ctx = has_raw && sp.is_some();
     format!("err span={} keys={}{}", show_span(sp), show_keys(&keys), rendered_check(rendered, &keys, ctx))
